@@ -145,6 +145,15 @@ CHECKS = {
               "expanded: every training password whose segmentation has no e-mail/website segment must be emitted byte for byte and "
               "the probabilities of all emitted guesses must sum to 1. Exploration, bounded to languages of 40000 guesses."),
         design='4/C03'),
+    'C07': dict(
+        technique="Exhaustive enumeration of all accepted code points (round trip real writer -> real guesser loader and real scorer loader, batched with bisection) plus Hypothesis property-based differential testing of trained rulesets across trainer counters, guesser tables, scorer tables, OMEN loaders and config.ini lists",
+        text=("Every one of the ~1.11 million code points the input filter accepts (and every byte of the single-byte encodings) is "
+              "written at four positions by the real rules writer and must be read back unchanged, with the exact probability, by both "
+              "real loaders - this sub-part is exhaustive. Generated training lists in five encodings are trained and every value, "
+              "probability, base structure, OMEN IP/CP/LN level and the alphabet must be identical in the trainer's counters, the "
+              "guesser's grammar, the scorer's tables and both OMEN loaders, and config.ini must list exactly the files on disk. "
+              "Exploration with an exhaustive sub-part."),
+        design='4/C07'),
 }
 
 NOT_YET = "check not built yet in this round (design exists in DESIGN.md section 4); not claimed until it runs"
